@@ -3,6 +3,7 @@ import SlotVerif.Props.C01
 import SlotVerif.Proofs.LookupEquiv
 import SlotVerif.Proofs.LookupFind
 import SlotVerif.Proofs.Variants
+import SlotVerif.Proofs.MinKey
 /-!
 # C09 — Insertion is canonical: known terms create nothing, lookup agrees with add
 
@@ -127,5 +128,19 @@ theorem variant_of_variant_is_variant {s : Snap} {n : Node} (hok : ∀ a ∈ Nod
     {ps0 : List Perm} (h0 : Snap.Pick ps0 ((Node.appOcc n).map (Snap.grpOf s))) {v : Node}
     (hv : v ∈ Snap.variants s (Snap.withApps n (Snap.applyAll (Node.appOcc n) ps0))) : v ∈ Snap.variants s n :=
   (Snap.variants_of_variant hok h0 v).mp hv
+
+/-- **the occurrence list of the canonical variant does not depend on the symmetric spelling**: `proven_proven_pre_shape`
+minimises the slot-occurrence list of the weak shape over the group-compatible variants (`lexLt` is a strict total order,
+the fold returns a minimal element: `Proofs/MinKey.lean`); an e-node with canonical children and the same e-node with every
+child replaced by a symmetric copy have canonical variants with the same occurrence list.  (That equal occurrence lists of
+two variants of one node mean equal weak shapes — the last step to `shape n' = shape n` — is not proved.) -/
+theorem canonical_key_invariant {s : Snap} {n : Node} (hok : ∀ a ∈ Node.appOcc n, Snap.ChildOK s a) {ps0 : List Perm}
+    (h0 : Snap.Pick ps0 ((Node.appOcc n).map (Snap.grpOf s))) (hcan : Snap.findNode s n = some n)
+    (hcan' : Snap.findNode s (Snap.withApps n (Snap.applyAll (Node.appOcc n) ps0)) =
+      some (Snap.withApps n (Snap.applyAll (Node.appOcc n) ps0)))
+    {r r' : Node} (hr : Snap.preShape s n = some r)
+    (hr' : Snap.preShape s (Snap.withApps n (Snap.applyAll (Node.appOcc n) ps0)) = some r') :
+    Snap.shapeKey r = Snap.shapeKey r' :=
+  Snap.preShape_key_of_variant hok h0 hcan hcan' hr hr'
 
 end SV.C09
